@@ -90,25 +90,31 @@ theorem decode_hdr_nil (hcls : AsciiCls cls) {t : Nat} {nsp : Option Str} {id na
 
 /-- decoding a header followed by the JSON text of `j` -/
 theorem decode_hdr_json (hcls : AsciiCls cls) {t : Nat} {nsp : Option Str} {id natt : Option Nat}
-    (hwf : WFHdr t nsp id natt = true) {j : J} (hs : StartOK (dumps j) = true)
-    (hl : loads (dumps j) = .ok j) :
+    (hwf : WFHdr t nsp id natt = true) {j : J} (hne : (dumps j).isEmpty = false)
+    (hs : BodyOK cls nsp id natt (dumps j) = true) (hl : loads (dumps j) = .ok j) :
     decode cls loads (encodeHdr t nsp id natt ++ dumps j)
       = .ok (⟨t, normNs nsp, id, some j⟩, natt.getD 0) := by
-  rw [decode_of_hdr (hdr_roundtrip_lem hcls hwf (bodyOK_of_startOK hcls _ _ _ hs))]
-  simp only [startOK_ne_nil hs, hl]; rfl
+  rw [decode_of_hdr (hdr_roundtrip_lem hcls hwf hs)]
+  simp only [hne, hl]; rfl
 
 theorem wfHdr_natt {t : Nat} {nsp : Option Str} {id : Option Nat} {n : Nat}
     (h : WFHdr t nsp id none = true) (hn : n < 10 ^ 10) : WFHdr t nsp id (some n) = true := by
   simp only [WFHdr, Bool.and_eq_true, decide_eq_true_eq] at h ⊢
   exact ⟨h.1, hn⟩
 
-theorem wf_unpack {p : Packet} (h : WF p = true) :
-    WFHdr p.type p.nsp p.id none = true ∧ optAll TopOK p.data = true ∧
+theorem wf_unpack {p : Packet} (h : WFCore p = true) :
+    WFHdr p.type p.nsp p.id none = true ∧
     optAll NoReservedKey p.data = true ∧ (isBinType p.type = true ∨ optAll NoBin p.data = true) ∧
     optAll (fun j => decide ((binLeaves j).length < 10 ^ 10)) p.data = true := by
-  simp only [WF, Bool.and_eq_true, Bool.or_eq_true] at h
-  obtain ⟨⟨⟨⟨h1, h2⟩, h3⟩, h4⟩, h5⟩ := h
-  exact ⟨h1, h2, h3, h4, h5⟩
+  simp only [WFCore, Bool.and_eq_true, Bool.or_eq_true] at h
+  obtain ⟨⟨⟨h1, h3⟩, h4⟩, h5⟩ := h
+  exact ⟨h1, h3, h4, h5⟩
+
+theorem wf_core {p : Packet} (h : WF p = true) : WFCore p = true := by
+  simp only [WF, Bool.and_eq_true] at h; exact h.1
+
+theorem wf_topOK {p : Packet} (h : WF p = true) : optAll TopOK p.data = true := by
+  simp only [WF, Bool.and_eq_true] at h; exact h.2
 
 /-- `encode` spelled out on well-formed packets -/
 theorem encode_plain {p : Packet} (h : isBinType p.type = false) :
@@ -136,13 +142,20 @@ theorem wire_data_bin {p : Packet} (h : isBinType p.type = true) :
     The JSON layer enters only at the one value that is printed: the wire payload. -/
 theorem decode_encode (hcls : AsciiCls cls) {p : Packet}
     (hrt : ∀ j, p.wire.data = some j → loads (dumps j) = .ok j)
-    (hstart : ∀ j, p.wire.data = some j → StartOK (dumps j) = true)
-    (hwf : WF p = true) :
+    (hbody : ∀ j, p.wire.data = some j → PayloadOK cls p (dumps j) = true)
+    (hwf : WFCore p = true) :
     decode cls loads (encode dumps p).1 = .ok (p.wire, ((encode dumps p).2.getD []).length) := by
-  obtain ⟨hh, _, _, _, hlen⟩ := wf_unpack hwf
+  obtain ⟨hh, _, _, hlen⟩ := wf_unpack hwf
+  have hb' : ∀ j, p.wire.data = some j →
+      (dumps j).isEmpty = false ∧ BodyOK cls p.nsp p.id p.nattField (dumps j) = true := by
+    intro j h
+    have := hbody j h
+    simp only [PayloadOK, Bool.and_eq_true, Bool.not_eq_eq_eq_not, Bool.not_true] at this
+    exact this
   cases hb : isBinType p.type with
   | false =>
     have hwd := wire_data_plain (p := p) (by simpa using hb)
+    have hnf : p.nattField = none := by simp [Packet.nattField, hb]
     rw [encode_plain (by simpa using hb)]
     cases hd : p.data with
     | none =>
@@ -154,7 +167,9 @@ theorem decode_encode (hcls : AsciiCls cls) {p : Packet}
         simp [Packet.wire, Packet.norm, hb, hd]
       rw [this]
       rw [hd] at hwd
-      exact decode_hdr_json hcls hh (hstart j hwd) (hrt j hwd)
+      have := hb' j hwd
+      rw [hnf] at this
+      exact decode_hdr_json hcls hh this.1 this.2 (hrt j hwd)
   | true =>
     have hwd := wire_data_bin (p := p) (by simpa using hb)
     cases hd : p.data with
@@ -165,6 +180,7 @@ theorem decode_encode (hcls : AsciiCls cls) {p : Packet}
       rw [this]
       exact decode_hdr_nil hcls (wfHdr_natt hh (by decide))
     | some j =>
+      have hnf : p.nattField = some (binLeaves j).length := by simp [Packet.nattField, hb, hd]
       rw [encode_bin_some (by simpa using hb) hd]
       rw [hd] at hlen hwd
       simp only [optAll, decide_eq_true_eq] at hlen
@@ -172,12 +188,20 @@ theorem decode_encode (hcls : AsciiCls cls) {p : Packet}
         simp [Packet.wire, Packet.norm, hb, hd]
       rw [this]
       simp only [Option.getD_some]
-      exact decode_hdr_json hcls (wfHdr_natt hh hlen) (hstart _ hwd) (hrt _ hwd)
+      have := hb' _ hwd
+      rw [hnf] at this
+      exact decode_hdr_json hcls (wfHdr_natt hh hlen) this.1 this.2 (hrt _ hwd)
+
+/-- `StartOK` texts may follow any header -/
+theorem payloadOK_of_startOK (hcls : AsciiCls cls) (p : Packet) {s : Str} (h : StartOK s = true) :
+    PayloadOK cls p s = true := by
+  simp [PayloadOK, startOK_ne_nil h, bodyOK_of_startOK hcls _ _ _ h]
 
 /-- the global form of the two JSON hypotheses implies the pointwise one used above -/
 theorem wire_json_hyps {p : Packet} (hwf : WF p = true) {j : J} (h : p.wire.data = some j) :
     NoBin j = true ∧ TopOK j = true := by
-  obtain ⟨_, htop, _, hbin, _⟩ := wf_unpack hwf
+  obtain ⟨_, _, hbin, _⟩ := wf_unpack (wf_core hwf)
+  have htop := wf_topOK hwf
   cases hb : isBinType p.type with
   | false =>
     rw [wire_data_plain (by simpa using hb)] at h
@@ -195,9 +219,9 @@ theorem wire_json_hyps {p : Packet} (hwf : WF p = true) {j : J} (h : p.wire.data
       exact ⟨noBin_decon j' [], topOK_decon j' [] htop⟩
 
 /-- the attachments of a well-formed packet rebuild its payload -/
-theorem recon_wire {p : Packet} (hwf : WF p = true) {j : J} (hd : p.data = some j) :
+theorem recon_wire {p : Packet} (hwf : WFCore p = true) {j : J} (hd : p.data = some j) :
     recon ((binLeaves j).map J.bin) (decon j []).1 = .ok j := by
-  obtain ⟨_, _, hres, _, _⟩ := wf_unpack hwf
+  obtain ⟨_, hres, _, _⟩ := wf_unpack hwf
   simp only [hd, optAll] at hres
   have := recon_decon_gen j [] [] hres
   simpa [decon_snd] using this
@@ -207,10 +231,9 @@ theorem encode_atts_nil_of_plain {p : Packet} (h : isBinType p.type = false) :
   rw [encode_plain h]; rfl
 
 /-- `roundtrip`, second half: feeding the attachments -/
-theorem feed_encode {p : Packet} (hwf : WF p = true) :
+theorem feed_encode {p : Packet} (hwf : WFCore p = true) :
     feed ⟨p.wire, ((encode dumps p).2.getD []).length, []⟩ (((encode dumps p).2.getD []).map J.bin)
       = .ok (if (encode dumps p).2.getD [] = [] then .inl ⟨p.norm, 0, []⟩ else .inr p.norm) := by
-  obtain ⟨_, _, _, hbin, _⟩ := wf_unpack hwf
   cases hb : isBinType p.type with
   | false =>
     have hw : p.wire = p.norm := by simp [Packet.wire, hb, Packet.norm]
@@ -239,7 +262,7 @@ theorem feed_encode {p : Packet} (hwf : WF p = true) :
         simp [Packet.wire, Packet.norm, hd]
 
 /-- `handback`: each attachment but the last is answered "more", the last one "complete". -/
-theorem handback_split {p : Packet} (hwf : WF p = true) (pre post : List J) (b : J)
+theorem handback_split {p : Packet} (hwf : WFCore p = true) (pre post : List J) (b : J)
     (hsplit : ((encode dumps p).2.getD []).map J.bin = pre ++ b :: post) :
     addAttachment ⟨p.wire, ((encode dumps p).2.getD []).length, pre⟩ b
       = .ok (if post = [] then .complete p.norm
@@ -314,16 +337,16 @@ theorem wf_of_mkPacket {t : Nat} {d : Option J} {nsp : Option Str} {id : Option 
   cases d with
   | none =>
     simp [mkPacket] at hmk; subst hmk
-    simp [WF, h1, optAll]
+    simp [WF, WFCore, h1, optAll]
   | some j =>
     by_cases hb : j.isBinary = true
     · by_cases e1 : t = EVENT
       · simp [mkPacket, hb, e1] at hmk; subst hmk
-        simp_all [WF, WFHdr, isBinType, BINARY_EVENT, BINARY_ACK, EVENT]
+        simp_all [WF, WFCore, WFHdr, isBinType, BINARY_EVENT, BINARY_ACK, EVENT]
       · by_cases e2 : t = ACK
         · subst e2
           simp [mkPacket, hb, ACK, EVENT] at hmk; subst hmk
-          simp_all [WF, WFHdr, isBinType, BINARY_EVENT, BINARY_ACK, ACK]
+          simp_all [WF, WFCore, WFHdr, isBinType, BINARY_EVENT, BINARY_ACK, ACK]
         · simp [mkPacket, hb, e1, e2] at hmk
     · simp [mkPacket, hb] at hmk; subst hmk
       have hnb : NoBin j = true := by
@@ -332,6 +355,6 @@ theorem wf_of_mkPacket {t : Nat} {d : Option J} {nsp : Option Str} {id : Option 
         | true => rfl
         | false => rw [hn] at this; exact absurd this hb
       simp only [optAll] at h2 h3 h4
-      simp [WF, h1, h2, h3, h4, optAll, hnb]
+      simp [WF, WFCore, h1, h2, h3, h4, optAll, hnb]
 
 end Sio
